@@ -75,7 +75,8 @@ impl<'a> SegmentQueryRunner<'a> {
     /// If ORDER BY is present, returns None to allow all events to be collected
     /// for proper sorting. Otherwise, returns the configured limit.
     fn determine_eval_limit(&self, ctx: &QueryContext) -> Option<usize> {
-        if ctx.should_defer_limit() {
+        // Aggregates: LIMIT caps groups (applied in AggregateStreamMerger), never input events.
+        if ctx.should_defer_limit() || self.plan.aggregate_plan.is_some() {
             None
         } else {
             self.limit
